@@ -166,6 +166,8 @@ fn conv_name() -> BoxedStrategy<String> {
 		])
 		.prop_map(|s| s.to_string()),
 		1 => prop::sample::select(vec!["ex\u{e4}mple.com", "\u{65e5}\u{672c}.jp", "a\u{80}", "\u{ff11}.2.3.4"]).prop_map(|s| s.to_string()),
+		// any IA5 text: trailing and leading dots, upper case, blanks, brackets, long labels
+		3 => gen::ia5_text(12),
 	]
 	.boxed()
 }
@@ -388,7 +390,7 @@ fn reuse_case() -> BoxedStrategy<ReuseCase> {
 pub fn def() -> PropertyDef {
 	PropertyDef {
 		id: "C02",
-		rule: "Spec (every CertificateParams field, sparsity modes nothing/exactly-one/random-subset/everything, 3 public-key sources, self- and issuer-signed, all key algorithms) -> rcgen -> harness RFC 5280 decoder -> compared with the reference model; sweeps: 511 key-usage subsets (alone and with a SAN), 256 path lengths, 256 prefixes x 3 constructors x v4/v6. Sub-check constructors: parameters built through the convenience API instead of the public fields (CertificateParams::new and generate_simple_self_signed with host names, IP literals and look-alikes; SerialNumber::from(u64 / Vec<u8>); insert_extended_key_usage with repeats; DnType::from_oid with &str / String values pushed onto the default name; date_time_ymd) against the same model. Sub-check params-reuse: a parameter object made for other content, already used (serialize_request through a reference, self_signed from a clone, or taken from an issued certificate's params()), is edited field by field or in place (collections cleared and refilled, name attributes removed and pushed) into the case's parameters; it must equal a fresh object and produce the certificate the model expects. Non-trivial = at least one extension-bearing field set (constructors: two or more names or a pushed attribute); distinct by hash of the Spec JSON.",
+		rule: "Spec (every CertificateParams field, sparsity modes nothing/exactly-one/random-subset/everything, 3 public-key sources, self- and issuer-signed, all key algorithms) -> rcgen -> harness RFC 5280 decoder -> compared with the reference model; sweeps: 511 key-usage subsets (alone and with a SAN), 256 path lengths, 256 prefixes x 3 constructors x v4/v6. Sub-check constructors: parameters built through the convenience API instead of the public fields (CertificateParams::new and generate_simple_self_signed with host names, IP literals, look-alikes and arbitrary IA5 texts; SerialNumber::from(u64 / Vec<u8>); insert_extended_key_usage with repeats; DnType::from_oid with &str / String values pushed onto the default name; date_time_ymd) against the same model. Sub-check params-reuse: a parameter object made for other content, already used (serialize_request through a reference, self_signed from a clone, or taken from an issued certificate's params()), is edited field by field or in place (collections cleared and refilled, name attributes removed and pushed) into the case's parameters; it must equal a fresh object and produce the certificate the model expects. Non-trivial = at least one extension-bearing field set (constructors: two or more names or a pushed attribute); distinct by hash of the Spec JSON.",
 		assumptions: vec![
 			"the harness DER/X.509 decoder (der.rs, x509.rs) is correct; it shares no code with rcgen/yasna/x509-parser and is unit- and differentially tested",
 			"SHA-2 from OpenSSL and OpenSSL's SubjectPublicKeyInfo encoding of the fixture keys are the reference for key identifiers and SPKI bytes",
